@@ -732,7 +732,11 @@ var syncFuncs = []string{"Store.Flush", "Store.flushTick", "Store.commit", "Stor
 	"FileCache.Open", "FileCache.Close", "FileCache.Remove", "FileCache.Clear", "FileCache.SetCacheSize", "FileCache.Len", "FileCache.Cap"}
 
 type sk struct {
-	ev []string
+	ev       []string
+	recv     string // receiver identifier of the function being walked
+	recvType string
+	depth    int
+	stack    map[string]bool
 }
 
 func exprStr(e ast.Expr) string {
@@ -806,6 +810,27 @@ func (k *sk) call(c *ast.CallExpr, deferred bool) {
 		return
 	}
 	name := exprStr(c.Fun)
+	// an unexported helper method called on the receiver is part of the caller's body: inline its events, so that
+	// extracting or inlining a helper does not change the skeleton
+	if sel, ok := c.Fun.(*ast.SelectorExpr); ok && !deferred {
+		if id, ok := sel.X.(*ast.Ident); ok && id.Name == k.recv && !isExported(sel.Sel.Name) {
+			target := k.recvType + "." + sel.Sel.Name
+			if fi, ok := funcs[target]; ok && k.depth < 3 && !k.stack[target] && !keepCall[target] {
+				sub := &sk{recv: fi.decl.Recv.List[0].Names[0].Name, recvType: k.recvType, depth: k.depth + 1, stack: map[string]bool{target: true}}
+				for t := range k.stack {
+					sub.stack[t] = true
+				}
+				sub.block(fi.decl.Body)
+				for _, e := range sub.ev {
+					if e == "SReturn" {
+						continue // a return of the helper is not a return of the caller
+					}
+					k.ev = append(k.ev, strings.ReplaceAll(e, "\""+sub.recv+".", "\""+k.recv+"."))
+				}
+				return
+			}
+		}
+	}
 	if strings.Contains(name, ".") || name == "panic" {
 		n := "SCall"
 		if deferred {
@@ -814,6 +839,11 @@ func (k *sk) call(c *ast.CallExpr, deferred bool) {
 		k.add(n, name)
 	}
 }
+
+// helpers the predicates name as calls (they are steps of their own in the models): not inlined
+var keepCall = map[string]bool{"Store.commit": true, "Store.outstandingWork": true, "Index.getRecordsFromBucket": true, "Index.readBucketInfo": true,
+	"Index.readDiskBucket": true, "Index.flushBucket": true, "Index.saveBucketState": true, "Index.getBucketIndex": true,
+	"MultihashPrimary.flushBlock": true, "primaryGC.close": true, "primaryGC.gc": true, "Index.gc": true}
 
 func (k *sk) expr(e ast.Expr) {
 	switch x := e.(type) {
@@ -963,7 +993,7 @@ func syncSkeleton(outV string) {
 			names = append(names, id)
 			continue
 		}
-		k := &sk{}
+		k := &sk{recv: fi.decl.Recv.List[0].Names[0].Name, recvType: fi.recvType, stack: map[string]bool{n: true}}
 		k.block(fi.decl.Body)
 		fmt.Fprintf(&sb, "Definition %s : list sev := [\n  %s\n].\n", id, strings.Join(k.ev, ";\n  "))
 		names = append(names, id)
